@@ -12,7 +12,8 @@ Local Open Scope Z_scope.
 Record pcfg := mkCfg {
   c_redirect : bool;
   c_cap_out : Z; c_cap_err : Z;        (* stdout/stderr_capture_maxbytes *)
-  c_ev_out : bool; c_ev_err : bool     (* stdout/stderr_events_enabled *)
+  c_ev_out : bool; c_ev_err : bool;    (* stdout/stderr_events_enabled *)
+  c_nolog : bool                       (* stdout_logfile = stderr_logfile = NONE *)
 }.
 
 Inductive wev :=
@@ -35,6 +36,10 @@ Inductive wop :=
 | WRead (p : nat) (c : chan) (n : nat)        (* poll reports p's c pipe readable; read(2) returns <= n bytes *)
 | WExit (p : nat)                             (* the child exits *)
 | WReap (p : nat)                             (* waitpid returns it: Subprocess.finish *)
+| WReapFault (p : nat) (c : chan) (eio : bool) (* the same, but the drain's read on channel c fails: EIO (true)
+                                                 raises out of readfd, EBADF (false) is turned into b'' by readfd *)
+| WReopen                                     (* SIGUSR2: group.reopenlogs() for every group *)
+| WClear (p : nat)                            (* clearProcessLogs: Subprocess.removelogs() *)
 | WOpen | WClose (fd : nat).                  (* unrelated descriptors *)
 
 (* deterministic filler for large writes: byte i is (7 i + seed) mod 251 *)
@@ -57,7 +62,7 @@ Section World.
   Variable strip : bool.           (* options.strip_ansi *)
   Variable incap : bool.           (* PROCESS_LOG events also for captured data (known finding C08-proclog) *)
 
-  Definition cfg (p : nat) : pcfg := nth p cfgs (mkCfg false 0 0 false false).
+  Definition cfg (p : nat) : pcfg := nth p cfgs (mkCfg false 0 0 false false false).
   Definition redirect (p : nat) : bool := c_redirect (cfg p).
   Definition capmax_of (p : nat) (c : chan) : Z :=
     match c with COut => c_cap_out (cfg p) | CErr => c_cap_err (cfg p) | CIn => 0 end.
@@ -73,7 +78,8 @@ Section World.
     let pid := p_pid (f_procs (w_f w) p) in
     match e with
     | Log d =>
-      mkW (w_f w) (w_d w) (w_pipe w) (w_exited w) (upd2 (w_logs w) p c (w_logs w p c ++ tr d))
+      mkW (w_f w) (w_d w) (w_pipe w) (w_exited w)
+          (if c_nolog (cfg p) then w_logs w else upd2 (w_logs w) p c (w_logs w p c ++ tr d))
           (if ev_of p c then w_events w ++ [WPlog p pid c (tr d)] else w_events w)
     | Cap d =>
       mkW (w_f w) (w_d w) (w_pipe w) (w_exited w) (w_logs w)
@@ -106,18 +112,34 @@ Section World.
 
   (* drain(): one read of everything left on every open output dispatcher, in
      dict order; then finish(): record_output(final=True) on each *)
-  Fixpoint drain (w : world) (p : nat) (l : list (nat * chan)) : option world :=
+  (* fault = Some (c, eio): the read on channel c fails during this drain *)
+  Fixpoint drain (fault : option (chan * bool)) (w : world) (p : nat) (l : list (nat * chan)) : option world :=
     match l with
     | [] => Some w
     | (_, c) :: r =>
       if is_out c && negb (closed (w_d w p c)) then
-        (* one readfd; whatever it does not return is lost when the pipe is closed *)
-        let k := read_take readfd_size (w_pipe w p c) in
-        match deliver (set_pipe w p c (skipn k (w_pipe w p c))) p c (firstn k (w_pipe w p c)) with
-        | Some w' => drain w' p r
-        | None => None
+        let faulty := match fault with Some (fc, eio) => if chan_eqb fc c then Some eio else None | None => None end in
+        match faulty with
+        | Some true =>
+          (* OSError out of readfd: drain()'s per-dispatcher guard calls handle_error(),
+             which closes the dispatcher; what the pipe held is lost; the loop goes on *)
+          let d := w_d w p c in
+          drain fault (set_d (set_pipe w p c []) p c (mkD (buf d) (capmode d) (cap d) true)) p r
+        | Some false =>
+          (* EBADF: readfd returns b'', handle_read_event takes it for EOF *)
+          match deliver (set_pipe w p c []) p c [] with
+          | Some w' => drain fault w' p r
+          | None => None
+          end
+        | None =>
+          (* one readfd; whatever it does not return is lost when the pipe is closed *)
+          let k := read_take readfd_size (w_pipe w p c) in
+          match deliver (set_pipe w p c (skipn k (w_pipe w p c))) p c (firstn k (w_pipe w p c)) with
+          | Some w' => drain fault w' p r
+          | None => None
+          end
         end
-      else drain w p r
+      else drain fault w p r
     end.
   Fixpoint final_flush (w : world) (p : nat) (l : list (nat * chan)) : option world :=
     match l with
@@ -131,7 +153,25 @@ Section World.
       else final_flush w p r
     end.
 
+  Definition reap (fault : option (chan * bool)) (w : world) (p : nat) : option world :=
+      if running w p && w_exited w p then
+        let l := p_disp (f_procs (w_f w) p) in
+        (* finish(): self.drain(), then record_output(final=True) on each dispatcher
+           (order generated from the source: finish_drain_first) *)
+        match (if finish_drain_first then drain fault w p l else final_flush w p l) with
+        | Some w1 =>
+          match (if finish_drain_first then final_flush w1 p l else drain fault w1 p l) with
+          | Some w2 =>
+            Some (mkW (fstep redirect (w_f w2) (Finish p)) (w_d w2) (w_pipe w2)
+                      (upd1 (w_exited w2) p false) (w_logs w2) (w_events w2))
+          | None => None
+          end
+        | None => None
+        end
+      else Some w.
+
   Definition wstep (w : world) (o : wop) : option world :=
+    let reap := fun f p => reap f w p in
     match o with
     | WSpawn p oc =>
       if running w p then Some w
@@ -181,22 +221,19 @@ Section World.
       if running w p then
         Some (mkW (w_f w) (w_d w) (w_pipe w) (upd1 (w_exited w) p true) (w_logs w) (w_events w))
       else Some w
-    | WReap p =>
-      if running w p && w_exited w p then
-        let l := p_disp (f_procs (w_f w) p) in
-        (* finish(): self.drain(), then record_output(final=True) on each dispatcher
-           (order generated from the source: finish_drain_first) *)
-        match (if finish_drain_first then drain w p l else final_flush w p l) with
-        | Some w1 =>
-          match (if finish_drain_first then final_flush w1 p l else drain w1 p l) with
-          | Some w2 =>
-            Some (mkW (fstep redirect (w_f w2) (Finish p)) (w_d w2) (w_pipe w2)
-                      (upd1 (w_exited w2) p false) (w_logs w2) (w_events w2))
-          | None => None
-          end
-        | None => None
-        end
-      else Some w
+    | WReap p => reap None p
+    | WReapFault p c eio => reap (Some (c, eio)) p
+    | WReopen => Some w
+    | WClear p =>
+      (* dispatcher.removelogs() on every dispatcher p has now: log files deleted and
+         recreated empty, capture buffers cleared *)
+      Some (fold_left (fun w e =>
+              let c := snd e in
+              if is_out c then
+                let d := w_d w p c in
+                mkW (w_f w) (upd2 (w_d w) p c (mkD (buf d) (capmode d) [] (closed d))) (w_pipe w) (w_exited w)
+                    (upd2 (w_logs w) p c []) (w_events w)
+              else w) (p_disp (f_procs (w_f w) p)) w)
     | WOpen => Some (mkW (fstep redirect (w_f w) OpenOther) (w_d w) (w_pipe w) (w_exited w) (w_logs w) (w_events w))
     | WClose fd => Some (mkW (fstep redirect (w_f w) (CloseOther fd)) (w_d w) (w_pipe w) (w_exited w) (w_logs w) (w_events w))
     end.
@@ -270,7 +307,7 @@ Definition check_world_sum (c : list pcfg * bool * bool * nat * list wop * Z) : 
    (capmax, strip, frags, trace) *)
 Definition check_chan (c : Z * bool * list bytes * list Z) : bool :=
   let '(capmax, strip, frags, want) := c in
-  match trace_ser begin_token end_token capmax (if strip then strip_escapes else tr_id) None init_d [] frags with
+  match trace_ser begin_token end_token capmax (if strip then strip_escapes else tr_id) None true init_d [] frags with
   | Some t => zlist_eqb t want
   | None => false
   end.
